@@ -2,7 +2,7 @@
 # seedtest_wt.sh <seed dir name> <property id>: like seedtest.sh, but the seeded change is applied in a scratch worktree (VERIF_REPO), /repo is untouched
 S=$1; P=$2; WT=/tmp/st_$S
 cd /verif
-PATCH=seeded/$S/patch.diff; [ -f $PATCH ] || PATCH=/tmp/seed_out/$S/patch.diff
+PATCH=/verif/seeded/$S/patch.diff; [ -f $PATCH ] || PATCH=/tmp/seed_out/$S/patch.diff
 git -C /repo worktree add -f --detach $WT HEAD >/dev/null 2>&1
 ( cd $WT && git apply $(realpath $PATCH) ) || { echo "cannot apply"; git -C /repo worktree remove --force $WT; exit 1; }
 VERIF_REPO=$WT ./check $P --tier quick > /tmp/seedtest_${S}_$P.out 2>&1; RC=$?
